@@ -3,6 +3,7 @@ package c05
 import (
 	"context"
 	"fmt"
+	"io"
 	"strings"
 	"testing"
 
@@ -27,6 +28,35 @@ type streamedProg struct {
 	Late      []string `json:"late_values"`          // values passed to Header.Set("X-Late<i>", v) after the first write, before any flush
 	LateName  string   `json:"late_name"`
 	FlushThen bool     `json:"flush_before_late_set"`
+	// ViaBodyStream: no chunked writer; the handler sets a body stream, and the late setter calls are
+	// made by that stream's Read, which the server calls after it has written the header block
+	ViaBodyStream bool `json:"late_set_inside_body_stream_read"`
+}
+
+type lateReader struct {
+	ctx  *app.RequestContext
+	p    *streamedProg
+	done bool
+	data []byte
+}
+
+func (r *lateReader) Read(b []byte) (int, error) {
+	if !r.done {
+		r.done = true
+		for i, v := range r.p.Late {
+			name := r.p.LateName
+			if name == "" {
+				name = fmt.Sprintf("X-Late%d", i)
+			}
+			r.ctx.Response.Header.Set(name, v)
+		}
+	}
+	if len(r.data) == 0 {
+		return 0, io.EOF
+	}
+	n := copy(b, r.data)
+	r.data = r.data[n:]
+	return n, nil
 }
 
 var curStreamed *streamedProg
@@ -36,6 +66,15 @@ func streamedHandler(c context.Context, ctx *app.RequestContext) {
 	ctx.Response.Header.Set("X-Pad", strings.Repeat("p", p.Pad))
 	for i, v := range p.Early {
 		ctx.Response.Header.Set(fmt.Sprintf("X-E%d", i), v)
+	}
+	if p.ViaBodyStream {
+		// length known or not: the two ways the server frames a streamed body
+		n := 11
+		if p.Pad%2 == 0 {
+			n = -1
+		}
+		ctx.SetBodyStream(&lateReader{ctx: ctx, p: p, data: []byte("firstsecond")}, n)
+		return
 	}
 	ctx.Response.HijackWriter(resp.NewChunkedBodyWriter(&ctx.Response, ctx.GetWriter()))
 	ctx.Write([]byte("first")) //nolint:errcheck
@@ -60,7 +99,7 @@ func TestC05Streamed(t *testing.T) {
 		streamedServer = srv.NewEcho(srv.Config{Setup: func(h *hserver.Hertz, echo app.HandlerFunc) { h.GET("/s", streamedHandler) }})
 	}
 	rapid.Check(t, func(t *rapid.T) {
-		p := &streamedProg{Pad: rapid.SampledFrom([]int{0, 100, 3000, 3900, 4096, 5000, 9000}).Draw(t, "pad"), FlushThen: rapid.IntRange(0, 3).Draw(t, "flushFirst") == 0}
+		p := &streamedProg{Pad: rapid.SampledFrom([]int{0, 100, 3000, 3901, 4096, 4097, 5000, 5001, 9000}).Draw(t, "pad"), FlushThen: rapid.IntRange(0, 3).Draw(t, "flushFirst") == 0}
 		for i := rapid.IntRange(0, 3).Draw(t, "nEarly"); i > 0; i-- {
 			p.Early = append(p.Early, genHostile(t, "early"))
 		}
@@ -72,9 +111,10 @@ func TestC05Streamed(t *testing.T) {
 			p.Late = append(p.Late, v)
 		}
 		p.LateName = rapid.SampledFrom([]string{"", "", "X-Pad", "X-E0", "Content-Type"}).Draw(t, "lateName")
+		p.ViaBodyStream = rapid.IntRange(0, 2).Draw(t, "viaBodyStream") == 0
 		curStreamed = p
 		_, res, _ := streamedServer.Run([][]byte{[]byte("GET /s HTTP/1.1\r\nHost: a\r\nConnection: close\r\n\r\n")}, sconn.EOF)
-		big := p.Pad >= 3900
+		big := p.Pad >= 3901
 		rec.Case(big && !p.FlushThen, ev.HashString(fmt.Sprintf("%+v", *p)), fmt.Sprintf("header-block-over-4k-%v", big), fmt.Sprintf("flushed-before-late-set-%v", p.FlushThen))
 		if res.Panic != nil {
 			t.Fatalf("panic: %v", res.Panic)
@@ -87,7 +127,7 @@ func TestC05Streamed(t *testing.T) {
 			t.Fatalf("start line %q\nprogram: %+v", h.start, *p)
 		}
 		// fields the application had set when the block was written, plus what the server adds itself
-		allowed := map[string]bool{"x-pad": true, "server": true, "date": true, "content-type": true, "transfer-encoding": true, "connection": true}
+		allowed := map[string]bool{"x-pad": true, "server": true, "date": true, "content-type": true, "transfer-encoding": true, "connection": true, "content-length": true}
 		for i := range p.Early {
 			allowed[fmt.Sprintf("x-e%d", i)] = true
 		}
@@ -102,12 +142,22 @@ func TestC05Streamed(t *testing.T) {
 				t.Fatalf("field %q appears %d times\nprogram: %+v\noutput: %q", name, seen[name], *p, res.Output)
 			}
 		}
-		for _, must := range []string{"x-pad", "date", "transfer-encoding"} {
+		musts := []string{"x-pad", "date", "transfer-encoding"}
+		if p.ViaBodyStream && p.Pad%2 != 0 {
+			musts = []string{"x-pad", "date", "content-length"}
+		}
+		for _, must := range musts {
 			if seen[must] != 1 {
 				t.Fatalf("field %q is missing from the header block (a later setter call overwrote the block before it was flushed?)\nprogram: %+v\noutput: %q", must, *p, res.Output)
 			}
 		}
-		if want := "5\r\nfirst\r\n6\r\nsecond\r\n0\r\n\r\n"; h.body != want {
+		want := "5\r\nfirst\r\n6\r\nsecond\r\n0\r\n\r\n"
+		if p.ViaBodyStream && p.Pad%2 != 0 {
+			want = "firstsecond"
+		} else if p.ViaBodyStream {
+			want = "b\r\nfirstsecond\r\n0\r\n\r\n"
+		}
+		if h.body != want {
 			t.Fatalf("body after the header block is %q, want %q\nprogram: %+v", h.body, want, *p)
 		}
 		if rec.WantSample() && big {
